@@ -34,6 +34,10 @@ class Simulator:
     def coverage_extra(self, prop, stats):
         return {}
 
+    def secondary_backends(self, prop, tier):
+        """[(backend, n_runs or None, seconds or None)] batches to run in a separate interpreter after the main one."""
+        return []
+
     def extra_checks(self, prop, tier, verif_seed):
         """Optional non-simulated cross-checks run by the driver after the batch: -> (coverage dict, harness errors)."""
         return {}, []
